@@ -519,11 +519,16 @@ def learn_trace(scn):
         shutil.rmtree(d, ignore_errors=True)
 
 
+def _norm(x):
+    """Process/thread ids out of temporary-file names (deterministic signatures)."""
+    return re.sub(r"(\.\d+)+\.tmp", ".<pid>.tmp", str(x))
+
+
 def points_for(trace):
     """[(point, policy, label)] for a recorded effect trace."""
     pts = []
     for idx, ev in enumerate(trace):
-        label = f"before #{idx} {ev[0]}({', '.join(map(str, ev[1:]))})"
+        label = _norm(f"before #{idx} {ev[0]}({', '.join(map(str, ev[1:]))})")
         for pol in ("flush", "lazy"):
             pts.append((["before", idx], pol, label))
         if ev[0] == "write":
@@ -571,7 +576,7 @@ def run_bounded(rep: Report, tier: str) -> None:
         except Exception as e:  # noqa: BLE001
             rep.crash(f"C15 could not record the effect trace for {scn}: {e}")
             continue
-        traces[_scn_desc(scn)] = tr
+        traces[_scn_desc(scn)] = [[_norm(x) if isinstance(x, str) else x for x in ev] for ev in tr]
         pts = points_for(tr)
         for point, pol, label in pts:
             cases.append({"scn": scn, "point": point, "policy": pol, "proc": "fork", "at": label})
